@@ -10,10 +10,18 @@ NAMESPACE = 'VL.C08'
 LEAN_MODULES = ['VotelibProofs.Props.C08']
 GEN_MODULES = ['Divisor', 'Quota']
 REQUIRED = ['getNBest_shape', 'plurality_shape', 'quotaSelector_refusals', 'ha_shape', 'haResult_sum', 'ge_keys_nodup',
-            'electedOf_map_cand', 'electedOf_append', 'electedOf_replicate_tie']
+            'electedOf_map_cand', 'electedOf_append', 'electedOf_replicate_tie', 'getNBest_shape_of_keys',
+            'lr_shape', 'qd_shape', 'quota_pos', 'lr_rounded_quota_zero_witness',
+            'getNBest_struct', 'breakSecondOrder_shape', 'copeland_shape', 'schulze_shape', 'minimax_shape']
 PROVED_FAMILIES = ['plurality', 'ha_d_hondt', 'ha_sainte_lague', 'ha_imperiali', 'ha_danish', 'ha_macau',
-                   'quota_selector_droop', 'quota_selector_hare']
+                   'quota_selector_droop', 'quota_selector_hare',
+                   'lr_hare', 'lr_hagenbach_bischoff', 'lr_imperiali', 'lr_droop', 'lr_hare_rounded', 'lr_hagenbach_bischoff_ceil',
+                   'lr_hagenbach_bischoff_rounded', 'qd_hare', 'qd_droop',
+                   'condorcet_copeland_2o', 'condorcet_copeland_raw', 'condorcet_schulze', 'condorcet_minimax_winvotes',
+                   'condorcet_minimax_margins', 'condorcet_minimax_pwo']
 NAMES = Names(prefix='cand')
+CONDORCET_MODELLED = ('rankedpairs_winvotes', 'rankedpairs_margins', 'rankedpairs_pwo', 'copeland_2o', 'copeland_raw', 'schulze',
+                      'kemeny_young', 'minimax_winvotes', 'minimax_margins', 'minimax_pwo')
 _FAMS = None
 DECLARED = ('VotingSystemError', 'NotImplementedError')
 # distributors documented as not awarding the full number of seats (QuotaDistributor docstring): sum <= n only
@@ -162,6 +170,16 @@ def model_line(case):
         return {'op': 'plurality', 'n': case['n'], 'votes': case['prof']}
     if f in PROVED_FAMILIES and f.startswith('ha_'):
         return {'op': 'ha', 'divisor': f[3:], 'first_coef': None, 'votes': case['prof'], 'n': case['n'], 'prev': [], 'max': []}
+    if f.startswith(('lr_', 'qd_')):
+        return {'op': f[:2], 'quota': f[3:], 'accept_equal': True, 'on_overaward': 'error', 'n': case['n'], 'votes': case['prof'],
+                'prev': None, 'max': None}
+    if f.startswith('condorcet_') and f[len('condorcet_'):] in CONDORCET_MODELLED:
+        # the evaluator's admissible vote type is the pairwise dictionary: convert with the REAL converter (C13) and send
+        # the dictionary in its insertion order to the C05 model of the evaluator
+        import votelib.convert as cv
+        pw = cv.RankedToCondorcetVotes().convert(fam_mod.build('ranked', case['prof'], NAMES))
+        return {'op': 'eval', 'name': f[len('condorcet_'):], 'n': case['n'],
+                'votes': [[NAMES.i(a), NAMES.i(b), num_str(w)] for (a, b), w in pw.items()]}
     if f.startswith('quota_selector_'):
         return {'op': 'quota_selector', 'n': case['n'], 'votes': case['prof'], 'quota': f[len('quota_selector_'):],
                 'accept_equal': True, 'on_more': 'select'}
@@ -169,7 +187,10 @@ def model_line(case):
 
 
 def compare(case, iobs, mobs):
-    if case['family'].startswith('ha_'):
+    if case['family'].startswith('condorcet_'):
+        import props.C05 as P05
+        return P05.compare({'op': 'eval', 'name': case['family'][len('condorcet_'):]}, iobs, mobs)
+    if case['family'].startswith(('ha_', 'lr_', 'qd_')):
         a, b = canon(iobs), canon_dist(mobs)
     else:
         a, b = canon(iobs), canon(mobs)
